@@ -7,6 +7,7 @@ import (
 	"os"
 	"path"
 	"reflect"
+	"sort"
 	"strings"
 	"testing"
 
@@ -180,14 +181,14 @@ func (m *machine) step(op ops.Op) (string, string) {
 		}
 	}
 	// modification times set through Chtimes
-	if mutating(op.K) {
+	if mutating(op.K) && !(op.K == "chtimes" && op.Sec == 0) {
 		for q := range m.mtimes {
 			if related(q, op.P) || related(q, op.P2) {
 				delete(m.mtimes, q)
 			}
 		}
 	}
-	if op.K == "chtimes" && rr.OK() {
+	if op.K == "chtimes" && rr.OK() && op.Sec != 0 {
 		m.mtimes[op.P] = op.Sec
 	}
 	for q, want := range m.mtimes {
@@ -227,6 +228,18 @@ func run(t *testing.T, kind string) {
 			"step": func(rt *rapid.T) {
 				tree := gen.TreeOf(ops.SnapOS(m.ref.Root))
 				op := gen.Op(rt, tree, names, 3, false)
+				if len(m.mtimes) > 0 && rapid.IntRange(0, 9).Draw(rt, "rechtimes") == 0 {
+					// a second Chtimes on a path whose time was set before, mostly with the zero time ("leave unchanged")
+					var ps []string
+					for q := range m.mtimes {
+						ps = append(ps, q)
+					}
+					sort.Strings(ps)
+					op = ops.Op{K: "chtimes", P: rapid.SampledFrom(ps).Draw(rt, "rechtimes.p")}
+					if rapid.IntRange(0, 3).Draw(rt, "rechtimes.real") == 0 {
+						op.Sec = int64(rapid.IntRange(1_000_000_000, 2_000_000_000).Draw(rt, "rechtimes.sec"))
+					}
+				}
 				s := sit.Of(op, tree)
 				if k := knownSig(kind, s); k != "" {
 					rec.Excluded(k)
